@@ -20,6 +20,11 @@ from .core import S, Env, State, run_steps, mkstate, cj, enc_rows, h
 # user links in every callable kind
 
 
+def collections_deque(it):
+    import collections
+    collections.deque(it, maxlen=0)
+
+
 def _mark(env, tag):
     env.markers.add(tag)
 
@@ -125,6 +130,23 @@ def _b_nonlink(step, env):
         def bad(record):
             return record
         return bad
+    if what == 'package-fewer-streams':
+        # declares one more resource than it hands row streams for
+        def short(package):
+            package.pkg.descriptor['resources'].append({'name': 'phantom', 'path': 'phantom.csv', 'profile': 'tabular-data-resource',
+                                                       'schema': {'fields': [{'name': 'p', 'type': 'string'}]}})
+            yield package.pkg
+            yield from package
+        return short
+    if what == 'package-first-only':
+        def first_only(package):
+            yield package.pkg
+            for i, res in enumerate(package):
+                if i == 0:
+                    yield res
+                else:
+                    collections_deque(res)
+        return first_only
     if what == 'partial2':
         def three(a, rows, tag='x'):
             yield from rows
@@ -258,7 +280,7 @@ BUILTINS = {
 }
 USER = {'user:%s:%s' % (r, k): {'op': 'user', 'role': r, 'kind': k} for r in ROLE_IMPL for k in KINDS}
 NONLINKS = {'nonlink:%s' % w: {'op': 'nonlink', 'what': w}
-            for w in ('none', 'int', 'object', 'callable2', 'callable0', 'callable-badname', 'partial2')}
+            for w in ('none', 'int', 'object', 'callable2', 'callable0', 'callable-badname', 'partial2', 'package-fewer-streams')}
 SYMS = {}
 SYMS.update(BUILTINS)
 SYMS.update(USER)
@@ -554,6 +576,8 @@ def stepwise(init, path, memo=None):
         if r['missing']:
             if sym.startswith('user:row_') and not any(len(x) for x in state.rows):
                 legit.add('u%d' % (i + 1))       # a row function legitimately never runs when no row reaches it
+            elif sym.startswith('user:rows') and not state.rows:
+                legit.add('u%d' % (i + 1))       # a rows function legitimately never runs when no resource is left
             else:
                 return {'kind': 'skipped', 'at': i, 'missing': r['missing']}
         if sym in EMPTYING_LINKS and any(len(x) for x in r['res'][1].rows):
@@ -567,7 +591,13 @@ def stepwise(init, path, memo=None):
 
 
 def lazy_steps(init, path):
-    return [{'op': 'from_state', 'state': init}] + [SYMS[s] for s in path], list(range(len(path) + 1))
+    src = {'op': 'from_state', 'state': init}
+    if any(sym in EMPTYING_LINKS for sym in path):
+        # a user link that returns without reading its input breaks the drain discipline on purpose: over the shared
+        # sequential cursor the *harness source* would then hand the unread rows to the next resource (an artefact of
+        # the source, not of the library), so such paths run over independent per-resource iterators
+        src['sequential'] = False
+    return [src] + [SYMS[s] for s in path], list(range(len(path) + 1))
 
 
 def check_path(inp, path, memo=None, variants=False):
@@ -583,6 +613,11 @@ def check_path(inp, path, memo=None, variants=False):
                          % ', '.join(path)))
         return viol, 'nonlink-rejected' if not viol else 'nonlink-skipped', None
     sw = stepwise(init, path, memo)
+    if len(path) == 1 and path[0].startswith('user:') and sw['kind'] == 'exc':
+        e = sw['exc']
+        viol.append(('valid-link-rejected', 'Flow(%s) is rejected although the link is a well-formed %s: %s: %s'
+                     % (path[0], path[0].split(':')[1] + ' callable', core.exc_sig(e), str(e)[:100].replace('\n', ' '))))
+        return viol, 'differs', None
     if lz['res'][0] == 'ok' and sw['kind'] == 'ok':
         lz['missing'] = [m for m in lz['missing'] if m not in sw['legit_missing']]
         # a link that never asks for its input legitimately keeps the row-level links before it from ever being called
